@@ -146,6 +146,37 @@ def main():
               'list(stream(Pseq([c]))) == list(stream(c)) for c = Pseq(%s).%s(routine_over(%s), Pseq(%s))' % (pa, n3, pl, ph),
               lambda: list(stream(Pseq([getattr(Pseq(pa), n3)(routine_over(pl), Pseq(ph))]))),
               list(stream(getattr(Pseq(pa), n3)(routine_over(pl), Pseq(ph)))))
+        # composed functions CALLED WITH KEYWORD ARGUMENTS: every operand function (receiver, right operand,
+        # every extra n-ary operand, reflected forms) must be called with the same arguments, each keeping
+        # the keywords it declares.  Expected values come from the raw lambdas called with hand-filtered arguments.
+        d0, q0, x0 = rng.randint(1, 4), rng.randint(1, 4), rng.randint(0, 3)
+        sig_raw = lambda x, depth=d0: x * depth + 1
+        lo_raw = lambda x=x0, depth=1, q=q0: -depth - q - abs(x)
+        hi_raw = lambda depth=2, x=0: abs(x) + 2 * depth + 1
+        sig, lof, hif = Function(sig_raw), Function(lo_raw), Function(hi_raw)
+        xv, dv, rv = rng.randint(-9, 9), rng.randint(1, 6), rng.randint(-3, 3)
+        src = ('sig=Function(lambda x, depth=%d: x*depth+1); lo=Function(lambda x=%d, depth=1, q=%d: -depth-q-abs(x)); '
+               'hi=Function(lambda depth=2, x=0: abs(x)+2*depth+1); ' % (d0, x0, q0))
+        for ctext, call, svals in (
+                ('(x=%d, depth=%d, rate=%d)' % (xv, dv, rv), lambda f: f(x=xv, depth=dv, rate=rv),
+                 (sig_raw(x=xv, depth=dv), lo_raw(x=xv, depth=dv), hi_raw(x=xv, depth=dv))),
+                ('(x=%d)' % xv, lambda f: f(x=xv), (sig_raw(x=xv), lo_raw(x=xv), hi_raw(x=xv))),
+                ('(%d, depth=%d)' % (xv, dv), lambda f: f(xv, depth=dv),
+                 (sig_raw(xv, depth=dv), lo_raw(xv, depth=dv), None))):
+            sv, lv, hv = svals
+            if hv is not None:
+                check('kwcall_narop', 'keyword_call_narop', src + 'sig.%s(lo, hi)%s' % (n3, ctext),
+                      lambda: call(getattr(sig, n3)(lof, hif)), op3(sv, lv, hv))
+                check('kwcall_narop_composed_args', 'keyword_call_narop', src + 'sig.%s(lo - 1, hi + 1)%s' % (n3, ctext),
+                      lambda: call(getattr(sig, n3)(lof - 1, hif + 1)), op3(sv, lv - 1, hv + 1))
+                check('kwcall_narop_builtin_form', 'keyword_call_narop', src + 'bi.%s(sig, lo, hi)%s' % (n3, ctext),
+                      lambda: call(op3(sig, lof, hif)), op3(sv, lv, hv))
+                check('kwcall_nested', 'keyword_call_narop', src + '((sig + lo) * 2).%s(lo, hi)%s' % (n3, ctext),
+                      lambda: call(getattr((sig + lof) * 2, n3)(lof, hif)), op3((sv + lv) * 2, lv, hv))
+            if not (name in ('//', 'bi.mod') and (lv == 0 or sv == 0)):
+                check('kwcall_binop', 'keyword_call_binop', src + '(sig %s lo)%s' % (name, ctext), lambda: call(op(sig, lof)), op(sv, lv))
+                check('kwcall_reflected', 'keyword_call_binop', src + '(%d %s lo)%s' % (n, name, ctext), lambda: call(op(n, lof)), op(n, lv))
+            check('kwcall_unop', 'keyword_call_unop', src + '(-(sig - lo))%s' % ctext, lambda: call(-(sig - lof)), -(sv - lv))
     # keep one (the first) example per law
     seen, out = set(), []
     for b in bad:
